@@ -184,7 +184,8 @@ mod probes {
         use crate::tokenization::*;
         use crate::utils::SerializeMsgPack;
 
-        fn bpe_from(merges: &[(Vec<u8>, u32)], tag: &str) -> anyhow::Result<BPETokenizer> {
+        fn bpe_from(merges: &[(Vec<u8>, u32)], tag: &str) -> anyhow::Result<BPETokenizer> { bpe_from_limit(merges, tag, None) }
+        fn bpe_from_limit(merges: &[(Vec<u8>, u32)], tag: &str, max_vocab_size: Option<usize>) -> anyhow::Result<BPETokenizer> {
             let mut m: MergeOps = HashMap::new();
             for (k, v) in merges {
                 m.insert(k.clone(), *v);
@@ -192,7 +193,7 @@ mod probes {
             let p = std::env::temp_dir().join(format!("vt_probe_{}_{}.merges", std::process::id(), tag));
             m.save(&p)?;
             let t = BPETokenizer::new(
-                BPETokenizerConfig { merge_file: p.clone(), max_vocab_size: None, use_graphemes: true },
+                BPETokenizerConfig { merge_file: p.clone(), max_vocab_size, use_graphemes: true },
                 SpecialConfig::default(),
             );
             std::fs::remove_file(&p).ok();
@@ -231,8 +232,48 @@ mod probes {
                 .iter()
                 .map(|e| (e[0].as_str().unwrap().as_bytes().to_vec(), e[1].as_u64().unwrap() as u32))
                 .collect();
-            let t = bpe_from(&merges, "replay").map_err(|e| e.to_string())?;
-            check_tok(&t, "bpe")
+            let limit = input["max_vocab_size"].as_u64().map(|x| x as usize);
+            match input["kind"].as_str() {
+                Some("byte") => {
+                    let t = ByteTokenizer::new(
+                        ByteTokenizerConfig { use_graphemes: true, pad_to_multiple_of: input["pad_to"].as_u64().map(|x| x as usize), groups: ByteGroups::Bytes, aggregation: GroupAggregation::Mean },
+                        special_of(input),
+                    ).map_err(|e| e.to_string())?;
+                    check_tok(&t, "byte")?;
+                    check_special(&t, 256, "byte")
+                }
+                Some("char") => {
+                    let t = CharTokenizer::new(CharTokenizerConfig { use_graphemes: true, unk_token: "<unk>".to_string() }, special_of(input)).map_err(|e| e.to_string())?;
+                    check_tok(&t, "char")
+                }
+                _ => {
+                    let t = bpe_from_limit(&merges, "replay", limit).map_err(|e| e.to_string())?;
+                    check_tok(&t, &format!("bpe(max_vocab_size={limit:?})"))?;
+                    // decoding a single regular id yields exactly that token's bytes
+                    let vocab = t.get_vocab().map_err(|e| e.to_string())?;
+                    for id in 0..(vocab.len().saturating_sub(4)) as u32 {
+                        if let Ok(sx) = std::str::from_utf8(&vocab[id as usize]) {
+                            match t.de_tokenize(&[id], true) { Ok(d) if d == sx => {}, other => return Err(format!("bpe(max_vocab_size={limit:?}): de_tokenize([{id}]) = {other:?}, get_vocab()[{id}] = {sx:?}")) }
+                        }
+                    }
+                    check_special(&t, vocab.len() as u32 - 4, "bpe")
+                }
+            }
+        }
+        fn special_of(input: &Value) -> SpecialConfig {
+            let mut tokens: Vec<String> = vec!["<unk>".into(), "<bos>".into(), "<eos>".into(), "<pad>".into()];
+            if input["duplicates"].as_bool().unwrap_or(false) { tokens.push("<bos>".into()); tokens.push("<x>".into()); }
+            SpecialConfig { pad: "<pad>".into(), tokens, prefix: vec!["<bos>".into()], suffix: vec!["<eos>".into()] }
+        }
+        /// pad / prefix / suffix / special ids lie inside the vocabulary and are distinct from every regular id
+        fn check_special(t: &dyn Tokenize, regular: u32, what: &str) -> Result<(), String> {
+            let n = t.vocab_size() as u32;
+            let mut ids: Vec<u32> = t.prefix_token_ids().to_vec();
+            ids.extend(t.suffix_token_ids());
+            ids.push(t.pad_token_id());
+            for tok in ["<unk>", "<bos>", "<eos>", "<pad>"] { ids.push(t.token_to_id(tok).ok_or(format!("{what}: special token {tok} has no id"))?); }
+            for id in ids { if id < regular || id >= n { return Err(format!("{what}: special id {id} is not in [{regular}, {n}) (regular ids below, vocabulary size above)")); } }
+            Ok(())
         }
 
         pub fn search() -> Option<(Value, String)> {
@@ -244,10 +285,23 @@ mod probes {
                 vec![("aa", 0), ("aaa", 1), ("aaaa", 2), (" a", 3)],
             ];
             for tb in tables {
-                let input = json!({"kind": "bpe", "merges": tb.iter().map(|(k, v)| json!([k, v])).collect::<Vec<_>>()});
-                if let Err(e) = replay(&input) {
-                    return Some((input, e));
+                let m = tb.iter().map(|(k, v)| json!([k, v])).collect::<Vec<_>>();
+                let mut inputs = vec![json!({"kind": "bpe", "merges": m})];
+                // every truncating and non-truncating max_vocab_size (256 bytes + 4 special tokens + k merges)
+                for k in 0..=tb.len() + 1 { inputs.push(json!({"kind": "bpe", "merges": m, "max_vocab_size": 260 + k})); }
+                for input in inputs {
+                    if let Err(e) = replay(&input) {
+                        return Some((input, e));
+                    }
                 }
+            }
+            for dup in [false, true] {
+                for pad_to in [None, Some(8u64), Some(128)] {
+                    let input = json!({"kind": "byte", "merges": [], "duplicates": dup, "pad_to": pad_to});
+                    if let Err(e) = replay(&input) { return Some((input, e)); }
+                }
+                let input = json!({"kind": "char", "merges": [], "duplicates": dup});
+                if let Err(e) = replay(&input) { return Some((input, e)); }
             }
             None
         }
@@ -1158,6 +1212,8 @@ mod probes {
         pub fn search() -> Option<(Value, String)> { search_all().0.into_iter().next().map(|(i, e, _)| (i, e)) }
     }
 
+    include!("more_probes.rs");
+
     fn dispatch_replay(prop: &str, input: &Value) -> Result<(), String> {
         match prop {
             "C01" => c01::replay(input),
@@ -1168,6 +1224,11 @@ mod probes {
             "C13" => c13::replay(input),
             "C14" => c14::replay(input),
             "C17" => c17::replay(input),
+            "C18" => c18::replay(input),
+            "C16" => c16::replay(input),
+            "C11" => c11::replay(input),
+            "C10" => c10::replay(input),
+            "C06" => c06::replay(input),
             _ => Err(format!("no probe for {prop}")),
         }
     }
@@ -1182,6 +1243,11 @@ mod probes {
             "C13" => c13::search(),
             "C14" => c14::search(),
             "C17" => c17::search(),
+            "C18" => c18::search_all().0.into_iter().next().map(|(i, e, _)| (i, e)),
+            "C16" => c16::search_all().0.into_iter().next().map(|(i, e, _)| (i, e)),
+            "C11" => c11::search_all().0.into_iter().next().map(|(i, e, _)| (i, e)),
+            "C10" => c10::search_all().0.into_iter().next().map(|(i, e, _)| (i, e)),
+            "C06" => c06::search_all().0.into_iter().next().map(|(i, e, _)| (i, e)),
             _ => None,
         }
     }
@@ -1204,18 +1270,27 @@ mod probes {
             }
             "bounded" => {
                 // bounded exploration (labelled bounded in the evidence): every failing class with its first input
-                let (found, cases) = match prop.as_str() {
+                let (found, cases): (Vec<(Value, String, String)>, i64) = match prop.as_str() {
+                    // older probes: one class, cases not counted (-1)
+                    "C04" | "C07" | "C12" | "C15" => (dispatch_search(&prop).map(|(i, e)| vec![(i, e, "other".to_string())]).unwrap_or_default(), -1),
+                    p => { let (f, c) = match p {
                     "C14" => c14::search_all(),
                     "C01" => c01::search_all(),
                     "C17" => c17::search_all(),
                     "C13" => c13::search_all(),
+                    "C18" => c18::search_all(),
+                    "C16" => c16::search_all(),
+                    "C11" => c11::search_all(),
+                    "C10" => c10::search_all(),
+                    "C06" => c06::search_all(),
                     _ => (vec![], 0),
+                    }; (f, c as i64) }
                 };
                 for (input, e, class) in &found {
                     println!("PROBE-FAIL {}", json!({"input": input, "violated": e, "class": class}));
                 }
                 println!("PROBE-STATS {}", json!({"cases": cases, "failing_classes": found.len()}));
-                if found.is_empty() && cases > 0 { println!("PROBE-OK"); }
+                if found.is_empty() && cases != 0 { println!("PROBE-OK"); }
             }
             "search" => match dispatch_search(&prop) {
                 Some((input, e)) => println!("PROBE-FAIL {}", json!({"input": input, "violated": e})),
